@@ -87,7 +87,9 @@ type fakeNode struct {
 	lastFinAnswer   uint64
 	subs            []*nodeSub
 	subCount        int
-	emitted         []Log // every non-sentinel log pushed on a live subscription, in order
+	emitted         []Log  // every non-sentinel log pushed on a live subscription, in order
+	inflight        []bool // parallel to emitted: pushed right before the connection was dropped
+	markInflight    bool
 	filterQ         [][2]uint64
 	srv             *rpc.Server
 	hs              *httptest.Server
@@ -300,6 +302,7 @@ func (n *fakeNode) emit(logs []Log, record bool) {
 	for _, l := range logs {
 		if record && l.Decoy == 0 {
 			n.emitted = append(n.emitted, l)
+			n.inflight = append(n.inflight, n.markInflight)
 		}
 		gl := toGethLog(l, uint(len(n.emitted)))
 		for _, s := range n.subs {
